@@ -399,6 +399,8 @@ CTORS = [
     ('opus_multistream_surround_encoder_create', 'create'),
     ('opus_projection_ambisonics_encoder_create', 'create'), ('opus_projection_decoder_create', 'create'),
     ('opus_repacketizer_create', 'create'),
+    # the CELT layer's own initialisers: the public opus_custom_*_init / _create of custom-modes builds end here
+    ('opus_custom_encoder_init_arch', 'celt-init'), ('opus_custom_decoder_init', 'celt-init'),
 ]
 
 
@@ -422,6 +424,21 @@ def r11_6(rep, prog):
         rep.functions.add(fname)
         cf = cfgm.CFG(f)
         inst0 = '%s:%s' % (prog.config, fname)
+        if kind_ == 'celt-init':
+            sinks = T.calls_to(cf, ('memset', '__builtin_memset', '__memset_chk', '__builtin___memset_chk'))
+            ch = f.param_index('channels')
+            if not sinks or ch is None:
+                rep.unresolved('R11.6', inst0 + ': state clear / channels parameter not found')
+                continue
+            b, i, n = sinks[0]
+            an = absint.Analyzer(prog, f)
+            st = an.state_at(b, i)
+            vC = an.ev(['param', ch, 'channels'], st) if st is not None else absint.TOP
+            ok = vC == absint.mk(1, 2)
+            (rep.holds if ok else rep.violated)('R11.6', inst0 + ' rejects unsupported channel counts before clearing', '%s:%s' % (f.file, sx.line(n)),
+                                                'channels in %s at the clear%s' % (absint.show(vC), '' if ok else ': a count outside 1..2 sizes the state for that many channels while every `do { } while (++c<C)` loop of the codec still processes one'),
+                                                **({} if ok else {'key': fname + ':channels'}))
+            continue
         if kind_ == 'init':
             sinks = T.calls_to(cf, ('memset', '__builtin_memset', '__memset_chk', '__builtin___memset_chk'))
             if not sinks:
